@@ -385,19 +385,24 @@ func checkC15(c *Ctx) {
 	{
 		fl := NewFlow(p, proposed)
 		n := 0
-		eachInstr(proposed, func(in ssa.Instruction) {
-			mu, ok := in.(*ssa.MapUpdate)
-			if !ok || fl.K.Key(mu.Map) != "p0->"+kCC+"clientSeqNumbers" {
-				return
+		// in Proposed or in a helper of its package (e.g. a method of a named map type) it delegates to
+		for _, d := range deepInstrs(fl, func(in ssa.Instruction) bool { _, ok := in.(*ssa.MapUpdate); return ok }, 0) {
+			in := d.Instr
+			mu := in.(*ssa.MapUpdate)
+			mapK := d.Key(mu.Map)
+			if mapK != "p0->"+kCC+"clientSeqNumbers" {
+				continue
 			}
 			n++
-			k, v := fl.K.Key(mu.Key), fl.K.Key(mu.Value)
+			k, v := d.Key(mu.Key), d.Key(mu.Value)
 			cmd := strings.TrimSuffix(strings.TrimPrefix(k, kCmdCli), ")")
-			facts := fl.At(in)
-			ok = strings.HasPrefix(k, kCmdCli) && v == kCmdSeq+cmd+")" && falseOf(facts, is(kCCDup+cmd+")"))
+			facts := d.Facts
+			// not a duplicate: the stored number is below the command's (directly, or as what !isDuplicate(cmd) means)
+			gated := falseOf(facts, is(kCCDup+cmd+")")) || hasCmp(facts, "<", is(mapK+"["+k+"]"), is(kCmdSeq+cmd+")"))
+			ok := strings.HasPrefix(k, kCmdCli) && v == kCmdSeq+cmd+")" && gated
 			c.Check(ok, "C15.4", "Proposed: raises a client's sequence number only", p.InstrPos(in),
 				"clientSeqNumbers[cmd.ClientID] = cmd.SequenceNumber only under !isDuplicate(cmd)", "update "+k+" := "+v+" not gated; facts: "+join(facts.Sorted()))
-		})
+		}
 		if n == 0 {
 			c.Unresolved("C15.4", "Proposed", "no update of clientSeqNumbers")
 		}
